@@ -29,4 +29,26 @@ example : resLoads (FlexWindow.step idealOps (exEnv .balanced) exWorld (some tru
     some ([10485701 / 2097152], [4194245 / 2097152]) := by decide +kernel
 example : ∀ s ∈ exWorld.stations, (sdGet [("load", (3 : ℚ))] s.id).getD 0 = 0 := by decide
 
+
+/-- **Station power and connector load entries agree, LOAD_STRAT greedy / needy** (whole `step`, LOAD_STRAT ≠
+balanced): same hypotheses and statement as `C06_flex_window_balanced_station_entries` — the command loop of
+`distribute_peak_shaving_vehicles` (`gc.add_load(cs_id, power)` / `cs.current_power += …`, the `assert` makes both
+values equal), the surplus pass of the base class, `distribute_peak_shaving_v2g` and the battery passes keep
+entry = `current_power` for every station. -/
+theorem C06_flex_window_greedy_needy_station_entries (ops : BatOps α B) (env : FEnv α)
+    (hstrat : env.strat ≠ .balanced)
+    (w w' : SWorld α B) (window win' : Option Bool) (events : List (FEvent α))
+    (cmds : List (String × α)) (g : GcS α) (hg : w.gcs = [g])
+    (h0 : ∀ s ∈ w.stations, (sdGet g.loads s.id).getD 0 = 0)
+    (hsb : ∀ s ∈ w.stations, ∀ b ∈ w.batteries, s.id ≠ b.id)
+    (h : FlexWindow.step ops env w window events = .ok (w', win', cmds)) :
+    ∃ g', w'.gcs = [g'] ∧ ∀ s ∈ w'.stations, (sdGet g'.loads s.id).getD 0 = s.currentPower := by
+  obtain ⟨⟨g', hg'⟩, he, _, _⟩ := step_ps_finv ops env hstrat w w' window win' events cmds g hg h0 hsb h
+  exact ⟨g', hg', fun s hs => he g' hg' s hs⟩
+
+/-- Non-vacuity (greedy): the V2G-capable vehicle of `exWorld5` charges 2 kW; connector entry and station power are
+both 2 kW. -/
+example : resLoads (FlexWindow.step idealOps (exEnv .greedy) exWorld5 (some true) []) = some ([2], [2]) := by
+  decide +kernel
+
 end SpiceEv
